@@ -87,6 +87,7 @@ def run(F, R, ctx):
     float_cast_rule(F, R)
     both_operands_rule(F, R)
     same_field_rule(F, R)
+    overflow_arm_rule(F, R)
 
 
 def _run(F, R, ctx):
@@ -429,3 +430,53 @@ def same_field_rule(F, R):
                    sample=(n % 5 == 0))
     R.floor("C10.x", "field-against-field comparisons of two instances of one record type", n, 3)
 
+
+
+def overflow_arm_rule(F, R):
+    R.rule("C10.o", "the overflow exit of a checked operation computes its answer: wherever the numeric surface matches on the "
+                    "Option returned by checked_add / checked_sub / checked_mul / checked_neg / checked_abs / … on machine "
+                    "integers, the code that runs only on the None edge (the blocks dominated by it) performs a computation "
+                    "on the operands again — a conversion to a wider representation, big-integer / rational / float "
+                    "arithmetic — or raises an error. A None edge that answers with a constant (an ordering, a boolean, a "
+                    "saturated value) gives the same answer for every operand pair that overflows, which is wrong for about "
+                    "half of them")
+    reach = shared.script_reach(F)
+    n = 0
+    for name, fn in sorted(F.fns.items()):
+        if not SURFACE.search(name) or name not in reach or "::jit2::" in name:
+            continue
+        dom = None
+        for i, cb in fn.calls():
+            m_ = re.search(r"::()(checked_\w+)$", cb["callee"])
+            if not m_ or not re.match(r"^(core::num|num_traits|num_integer|num_bigint|core::ops)", cb["callee"]):
+                continue
+            d = re.match(r"_\d+", cb.get("dest") or "")
+            if not d:
+                continue
+            sw = None
+            for j, b in enumerate(fn.blocks):
+                if b["k"] == "switch" and b["on"] == "enum:Option" and not b["c"]:
+                    loc = re.match(r"_\d+", b["place"].strip("()*"))
+                    if loc and (loc.group(0) == d.group(0) or d.group(0) in
+                                {x for s_ in lib.alias_sources(fn, loc.group(0), depth=4) for x in lib.TOK.findall(s_)}):
+                        sw = j
+                        break
+            if sw is None:
+                continue            # handed to a combinator (ok_or_else / map …): the error/None is propagated, not answered
+            am = lib.arm_map(fn, sw)
+            none = am.get("None", am.get("_"))
+            some = am.get("Some")
+            if none is None or none == some:
+                continue
+            if dom is None:
+                dom = fn.dominators()
+            only = [x for x in fn.reachable_from([none], avoid=[some] if some is not None else []) if none in dom.get(x, ())]
+            calls = [fn.blocks[x]["callee"] for x in only if fn.blocks[x]["k"] == "call"]
+            computes = [c for c in calls if not re.search(r"::(clone|deref|drop|fmt|new_const|new_v1)$|^core::fmt::|^core::panicking", c)]
+            n += 1
+            R.inst("C10.o", "%s / None edge of %s (line %s) computes or raises" % (fn.short(), m_.group(2), cb["line"]), bool(computes),
+                   "%s: when %s overflows (line %s) the code answers without computing anything (no call on the None edge): the "
+                   "same constant for every overflowing operand pair — e.g. comparing a large negative fixnum with a ratio "
+                   "answers 'greater'" % (fn.short(), m_.group(2), cb["line"]), fn.loc(cb["line"]),
+                   sample={"calls_on_none_edge": [lib.split_path(c)[-1] for c in computes][:5]} if n % 4 == 0 else None)
+    R.floor("C10.o", "matched checked operations in the numeric surface", n, 12 if "jit2" in (F.meta.get("features") or []) else 8)
